@@ -27,6 +27,18 @@ BUILT = {
  "C06": dict(tech=TV + " against the definitional analyses of Analyses.tla (every offset, linear-scan fixed points)",
    text="Each of the nine dedicated-processor analyses is called on an enumerated box of task pairs and on seeded random inputs (jitter, bursts, conversions, non-scalar costs, blocking, segments, limits around the busy-window length); TLC re-evaluates the published definition naively over the request-bound tables recorded from the same objects (L by linear scan, every offset A in [0,L), max) and accepts iff value and Ok/Err agree.",
    note="Domain W: the task under analysis releases at least one job. Known finding F9 (ArrivalCurvePrefix) listed."),
+ "C01": dict(tech=WM + " (spec/Sched.tla, all schedules of each explored system) + " + TV + " (Analyses.tla)",
+   text="For every explored task system the bound of each of the four FP analyses is computed by the real library with the inputs the property prescribes (higher-or-equal-priority interference, blocking = longest lower-priority NP segment - 1, own last segment) and TLC then explores EVERY schedule of the system in the scheduler world model (all curve-compliant releases, execution times 1..C, segment lengths / floating-region placements, tie-breaks; unbounded time since all clocks are relative) against the invariant 'no pending job of a claimed task reaches age R'. A second stage validates the same analyses against their definitional evaluation.",
+   note="Complete per explored system; the set of systems is an enumerated 2-task box plus seeded random 2-3 (thorough 2-4) task systems with T<=7 (10), C<=3 (4), bounded backlog. Scheduler semantics of Sched.tla are the trusted model."),
+ "C02": dict(tech=WM + " (spec/Sched.tla, policy EDF) + " + TV + " (Analyses.tla)",
+   text="As C01 for the four EDF analyses: relative deadlines drawn from 1..2T+2 (incl. D>T and D<C), EDF key = D - age with arbitrary tie-breaking re-chosen at every preemption point; invariant 'no pending job reaches age R'; second stage: definitional evaluation.",
+   note="Only systems in which every task has a claim are explored (ages decide priorities). Same bounds as C01."),
+ "C03": dict(tech=WM + " (spec/Sched.tla, policy FIFO) + " + TV + " (Analyses.tla)",
+   text="As C01 for the FIFO analysis (tasks passed as Aggregate, Slice and boxed aggregate alternately): FIFO key = age with arbitrary tie-breaking among simultaneous releases; one bound for all tasks; second stage: definitional evaluation.",
+   note="Same bounds as C01."),
+ "C18": dict(tech=WM + " with witness probes (spec/Sched.tla, MCSchedWitness.cfg)",
+   text="Systems with exact realisable arrival models only; the bounds of FP-P, FP-NP (with the lower-priority blocker in the task set) and FIFO are recorded from the library, TLC explores every schedule with a completion-response variable and must reach, for every claimed task (FIFO: some task), a state in which a job completes with response time exactly R.",
+   note="Existence is shown by an explicit reachable witness state per (system, task); bounds as C01."),
 }
 m = {"version": 1, "setup_cmd": "bin/vf setup",
      "hooks": {"guard": "--cfg rta_verif",
